@@ -719,6 +719,8 @@ class Interp:
                 return Builtin("match.group", lambda it, a, k: it.match_group(v, a))
             if name in ("captures", "span", "start", "end"):
                 raise Unsupported("match.%s" % name)
+        if isinstance(v, Builtin) and name in getattr(v, "attrs", {}):
+            return v.attrs[name]
         if isinstance(v, RegexVal):
             if name == "match":
                 return Builtin("regex.match", lambda it, a, k: it.regex_match(v, a))
@@ -1268,8 +1270,14 @@ class Interp:
         return env
 
     def eval_default(self, f, node):
+        # Python evaluates default expressions once, when the def statement runs (import time)
         fr = Frame(f, f.env)
-        return self.eval(node, fr)
+        old = getattr(self, "phase", "call")
+        self.phase = "import"
+        try:
+            return self.eval(node, fr)
+        finally:
+            self.phase = old
 
     def call_function(self, f, args, kwargs):
         fr = Frame(f, f.env)
